@@ -270,6 +270,7 @@ func fidelity[T any](c *RunCtx, e *Env, variant int, vals []T, ids []string, pri
 		}
 		if !reflect.DeepEqual(seen[i].Data, any(want[i].data)) && !bothNaNFree(seen[i].Data, want[i].data) {
 			e.Fail("C12", "payload", fmt.Sprintf("%T", want[i].data), fmt.Sprintf("job %d: consumer saw %#v, JSON round trip of the submitted value is %#v", i, seen[i].Data, want[i].data))
+			e.Fail("C07", "submitted-data", fmt.Sprintf("adapter/%T", want[i].data), fmt.Sprintf("job %d: the worker function received %#v, submitted (JSON round trip) %#v", i, seen[i].Data, want[i].data))
 		}
 	}
 	if len(errs) != 0 {
